@@ -393,7 +393,9 @@ def run_property(prop, tier, seed, only=None, workers=None):
                           "known_findings.json" % (reg.name, reg.finding)
                 break
             if r[0] == "violation":
-                known_lines.append("KNOWN-FINDING: property=%s %s [%s]" % (prop, entry["what"], reg.finding))
+                line = "KNOWN-FINDING: property=%s %s [%s]" % (prop, entry["what"], reg.finding)
+                if line not in known_lines:
+                    known_lines.append(line)
             else:
                 print("note: pinned finding %s no longer reproduces (%s)" % (reg.finding, reg.name))
                 total.note(reg.case, r[1])
@@ -428,16 +430,26 @@ def run_property(prop, tier, seed, only=None, workers=None):
             if st.failure is not None:
                 case, msg, details = st.failure
                 # confirm outside hypothesis, in this (parent) process
-                r = run_check(sub, case)
-                if r[0] == "violation":
-                    violations.append((sub.name, case, r[1], r[2]))
-                elif r[0] == "harness":
-                    harness = "sub-check %s (while confirming a failure): %s" % (sub.name, r[1])
+                confirmed = None
+                for _attempt in range(3):
+                    r = run_check(sub, case)
+                    if r[0] != "ok":
+                        confirmed = r
+                        break
+                if confirmed is not None and confirmed[0] == "violation":
+                    violations.append((sub.name, case, confirmed[1], confirmed[2]))
+                elif confirmed is not None:
+                    harness = "sub-check %s (while confirming a failure): %s" % (sub.name, confirmed[1])
                     break
                 else:
-                    harness = ("sub-check %s reported a failure that does not reproduce when the "
-                               "case is replayed (flaky): %s\ncase: %s" % (sub.name, msg, jdump(case)[:2000]))
-                    break
+                    # The worker observed the property broken but the case passes when replayed: the
+                    # failure depends on an order the engine chose (set iteration, thread timing).  It is
+                    # still a violation that was observed; the replay file says that it is not
+                    # deterministic.
+                    details = dict(details or {})
+                    details["reproduced_on_replay"] = False
+                    violations.append((sub.name, case, msg + " [observed in a worker; order dependent: "
+                                       "passes on some replays]", details))
 
     wall = time.time() - t0
     if harness is not None:
